@@ -24,7 +24,10 @@ Oracle (model independent, real objects only): before every call the receiver is
   end-to-end: the composed parameter map of the whole history relates the final to the initial object.
 """
 from fractions import Fraction as F
+import ast
+import hashlib
 import math
+import os
 
 import numpy as np
 
@@ -54,6 +57,105 @@ CLASS_TINY = 'reparam-tiny-interval-absolute-knot-tolerance'
 _CLASSES = [CLASS_REVERSE_PERIODIC, CLASS_SWAP_CURVE, CLASS_TINY]
 INCLUDE_TINY = True      # target intervals narrower than ~1e-8: evaluation snaps to knots with the ABSOLUTE tolerance 1e-10
 TINY_WIDTH = 1e-7
+
+# ---------------------------------------------------------------------------------------------
+# translator: splipy/utils/__init__.py::check_direction  ->  lean/Splipy/Generated/C06.lean
+# Accepted shape (anything else FAILS CLOSED: empty table + the offending text as fallback, which breaks
+# theorem C06_check_direction_source and therefore the build):
+#     def check_direction(direction, pardim):
+#         if   direction in {c, c, ...} and K < pardim: return R
+#         elif ...
+#         raise ValueError(...)
+
+def _lean_tok(c):
+    if isinstance(c, bool):
+        raise ValueError('bool spelling')
+    if isinstance(c, int):
+        return '.int %d' % c if c >= 0 else '.int (%d)' % c
+    if isinstance(c, str) and '"' not in c and '\\' not in c:
+        return '.str "%s"' % c
+    raise ValueError('unsupported spelling %r' % (c,))
+
+
+def _arm(node):
+    """`direction in {...} and K < pardim` / `return R`  ->  (tokens, K, R)."""
+    t = node.test
+    if not (isinstance(t, ast.BoolOp) and isinstance(t.op, ast.And) and len(t.values) == 2):
+        raise ValueError('test is not `a and b`')
+    mem, bound = t.values
+    if not (isinstance(mem, ast.Compare) and len(mem.ops) == 1 and isinstance(mem.ops[0], ast.In)
+            and isinstance(mem.left, ast.Name) and mem.left.id == 'direction' and isinstance(mem.comparators[0], ast.Set)
+            and all(isinstance(e, ast.Constant) for e in mem.comparators[0].elts)):
+        raise ValueError('membership test not of the form `direction in {constants}`')
+    if not (isinstance(bound, ast.Compare) and len(bound.ops) == 1 and isinstance(bound.ops[0], ast.Lt)
+            and isinstance(bound.left, ast.Constant) and isinstance(bound.left.value, int)
+            and isinstance(bound.comparators[0], ast.Name) and bound.comparators[0].id == 'pardim'):
+        raise ValueError('bound not of the form `K < pardim`')
+    if not (len(node.body) == 1 and isinstance(node.body[0], ast.Return) and isinstance(node.body[0].value, ast.Constant)
+            and isinstance(node.body[0].value.value, int) and not isinstance(node.body[0].value.value, bool)):
+        raise ValueError('arm body is not `return <int>`')
+    toks = [e.value for e in mem.comparators[0].elts]
+    return toks, int(bound.left.value), int(node.body[0].value.value)
+
+
+def translate_check_direction(src):
+    """Returns (arms, fallback text, notes)."""
+    tree = ast.parse(src)
+    fn = next((n for n in tree.body if isinstance(n, ast.FunctionDef) and n.name == 'check_direction'), None)
+    if fn is None:
+        return [], 'unknown: check_direction not found', ['no function']
+    try:
+        if [a.arg for a in fn.args.args] != ['direction', 'pardim'] or fn.args.vararg or fn.args.kwarg or fn.args.defaults:
+            raise ValueError('signature is not (direction, pardim)')
+        body = [n for n in fn.body if not (isinstance(n, ast.Expr) and isinstance(n.value, ast.Constant))]
+        if len(body) != 2 or not isinstance(body[0], ast.If):
+            raise ValueError('body is not `if-chain; raise`')
+        arms = []
+        node = body[0]
+        while True:
+            arms.append(_arm(node))
+            if not node.orelse:
+                break
+            if len(node.orelse) == 1 and isinstance(node.orelse[0], ast.If):
+                node = node.orelse[0]
+            else:
+                raise ValueError('else branch is not an elif')
+        last = body[1]
+        if not (isinstance(last, ast.Raise) and isinstance(last.exc, ast.Call) and isinstance(last.exc.func, ast.Name)):
+            raise ValueError('last statement is not `raise X(...)`')
+        for toks, _k, _r in arms:
+            for c in toks:
+                _lean_tok(c)
+        return arms, 'raise ' + last.exc.func.id, []
+    except ValueError as e:
+        return [], 'unknown: %s' % e, [str(e)]
+
+
+def regenerate(sp, lean_dir):
+    path = os.path.join(os.path.dirname(os.path.abspath(sp.__file__)), 'utils', '__init__.py')
+    src = open(path, encoding='utf-8').read()
+    arms, fallback, notes = translate_check_direction(src)
+    digest = hashlib.sha256(src.encode()).hexdigest()[:16]
+    rows = ', '.join('([%s], %d, %d)' % (', '.join(_lean_tok(c) for c in toks), k, r) for toks, k, r in arms)
+    out = ('import Splipy.Model.Reparam\n\n'
+           '/-! GENERATED by harness/props/C06.py (`regenerate`) from the Python AST of\n'
+           '`splipy/utils/__init__.py::check_direction`.  Do not edit.  Arms\n'
+           '`if direction in {spellings} and k < pardim: return r` in source order, then the fallback statement. -/\n\n'
+           'namespace Splipy.Generated.C06\nopen Splipy\n\n'
+           'def checkDirectionArms : List (List DirTok × ℕ × ℕ) :=\n  [%s]\n\n'
+           'def checkDirectionFallback : String := "%s"\n\n'
+           'end Splipy.Generated.C06\n') % (rows, fallback.replace('\\', '/').replace('"', "'"))
+    gdir = os.path.join(lean_dir, 'Splipy', 'Generated')
+    os.makedirs(gdir, exist_ok=True)
+    gpath = os.path.join(gdir, 'C06.lean')
+    old = open(gpath, encoding='utf-8').read() if os.path.exists(gpath) else None
+    if old != out:
+        tmp = gpath + '.tmp%d' % os.getpid()
+        with open(tmp, 'w', encoding='utf-8') as f:
+            f.write(out)
+        os.replace(tmp, gpath)
+    return {'source': 'splipy/utils/__init__.py::check_direction', 'digest': digest, 'arms': arms, 'fallback': fallback, 'notes': notes}
+
 
 # ---------------------------------------------------------------------------------------------
 # the spelling convention of the library documentation (NOT derived from check_direction)
@@ -240,6 +342,11 @@ def generate(rng, tier):
                 args = [list(a) for a in args]
                 args[bad] = [3.0, 1.0]
                 specs.append({'family': 'partial-mutation', 'obj': o, 'ops': [{'op': 'reparam', 'args': args}, _rand_op(rng, pardim, 0.0)]})
+    # the instance of theorem C06_reverse_periodic_flip_only_refuted (Properties/C06.lean), replayed on the real code
+    specs.append({'family': 'lean-refutation-instance',
+                  'obj': {'bases': [{'order': 2, 'knots': [-1.0, 0.0, 1.0, 2.0, 3.0], 'periodic': 0}],
+                          'cps': [[0.0], [1.0]], 'rational': False},
+                  'ops': [{'op': 'reverse', 'dir': 0}]})
     if INCLUDE_TINY:
         for i in range(3 if tier == 'quick' else 30):
             pardim = 1 + i % 3
